@@ -213,7 +213,7 @@ PROPS = {
             "memo, and the row generators bump the row id once per yielded row (R-ONCEPERROW); no shared state "
             "(R-SHARED); the five sum aggregators skip NULL, accumulate with the mutator matching their operand type "
             "into a fresh per-group zero (R-AGGCLASS). NOT decided (outside static reach): that Inventory.reduce / "
-            "add_position / convert.* form a homomorphism - beancount's arithmetic over run-time lots and prices. The evaluator built by the function decorator evaluates every operand once, in order, on every row, also after a NULL operand (R-EVALALL): a `balance` operand is never skipped. Every SELECT target - also one that repeats an earlier target, as `sum(position) AS total, sum(position) AS again` - is compiled to an evaluator node of its own, decided on the paths of _compile_targets with a repeated target whose compiled expression compares equal to the first (R-TARGETNODE): an aggregate node is its target's accumulator, and a node shared by two targets would be updated twice per row. The `position` and `balance` columns read the posting's units and cost as they are - the whole cost, label included, is the lot key of the inventory sum (R-ACCESSPATH)."),
+            "add_position / convert.* form a homomorphism - beancount's arithmetic over run-time lots and prices. The evaluator built by the function decorator evaluates every operand once, in order, on every row, also after a NULL operand (R-EVALALL): a `balance` operand is never skipped. Every SELECT target - also one that repeats an earlier target, as `sum(position) AS total, sum(position) AS again` - is compiled to an evaluator node of its own, decided on the paths of _compile_targets with a repeated target whose compiled expression compares equal to the first (R-TARGETNODE; only the nodes are judged here, names belong to C07): an aggregate node is its target's accumulator, and a node shared by two targets would be updated twice per row. The `position` and `balance` columns read the posting's units and cost as they are - the whole cost, label included, is the lot key of the inventory sum (R-ACCESSPATH)."),
         'assumptions': TRUSTED_STRUCT,
         'quick': [sxst.rule_onceperrow, st.rule_shared, sxag.rule_aggclass, sxl.rule_reduce, sxev.rule_evalall, cr.rule_targetnode, tb.rule_accesspath],
         'thorough': [],
